@@ -123,6 +123,7 @@ def expected(case, step, state: dict):
 def body(ctx: C.Ctx, proof: C.ProofStatus) -> C.Result:
     from zorg.service.templates import init_from_template
 
+    Z.silence_logs()
     res = C.Result()
     rng = ctx.rng
     n = ctx.scale(600, 15000)
